@@ -166,9 +166,13 @@ def stream_storm(ctx):
     for cfg in configs:
         cfg = dict(cfg, seed=rng.below(10**6))
         env = dict(os.environ, PYTHONPATH=core.REPO)
+        import shutil
+        import tempfile
+        base = tempfile.mkdtemp(prefix="verif_c15_")      # removed here even when the storm has to be killed
         try:
-            p = subprocess.run(["/venv/bin/python", script, json.dumps(cfg)], env=env, stdout=subprocess.PIPE,
-                               stderr=subprocess.PIPE, text=True, timeout=cfg["seconds"] * 6 + 60)
+            p = subprocess.run(["/venv/bin/python", script, json.dumps(dict(cfg, base=base))], env=env,
+                               stdout=subprocess.PIPE, stderr=subprocess.PIPE, text=True,
+                               timeout=cfg["seconds"] * 6 + 60)
             last = [l for l in p.stdout.splitlines() if l.startswith("{")]
             res = json.loads(last[-1]) if last else {"bad": ["storm script produced no result (rc=%s): %s"
                                                              % (p.returncode, p.stderr[-500:])], "forks": 0}
@@ -176,6 +180,8 @@ def stream_storm(ctx):
                 res["bad"].append("an at-fork hook or a child raised: " + p.stderr.strip()[-600:])
         except subprocess.TimeoutExpired:
             res = {"bad": ["fork storm did not finish (deadlock in the parent): config %r" % (cfg,)], "forks": 0}
+        finally:
+            shutil.rmtree(base, ignore_errors=True)
         ctx.case(("storm", json.dumps(cfg, sort_keys=True)), nontrivial=(res.get("forks", 0) >= 20))
         ctx.stat("storm:forks", res.get("forks", 0))
         ctx.stat("storm:runs")
